@@ -3,6 +3,7 @@
 package server
 
 import (
+	"sync"
 	"github.com/openconfig/gribigo/rib"
 	"google.golang.org/grpc/codes"
 
@@ -11,6 +12,9 @@ import (
 )
 
 func init() {
+	vfRegister("VfC04_mixedLeave3", VfC04_mixedLeave3)
+	vfRegister("VfC04_mixedLeave4", VfC04_mixedLeave4)
+	vfRegister("VfC04_concurrent", VfC04_concurrent)
 	vfRegister("VfC05_runElection", VfC05_runElection)
 	vfRegister("VfC04_doModify", VfC04_doModify)
 	vfRegister("VfC08_flushDecision", VfC08_flushDecision)
@@ -367,7 +371,12 @@ func vfC04History(k int) {
 // interleave in every order (e.g. accepted operation, hand-over, stale operation).  After every
 // operation the RIB was reached iff the sender is the true primary and the stamp is its last id
 // and the highest id (computed by the harness).
-func vfC04Mixed(k int) {
+func vfC04Mixed(k int) { vfC04MixedD(k, false) }
+
+// vfC04MixedD: withDisconnect adds ONE departure of a session (deleteClient, as at the end of its Modify RPC)
+// before a symbolic step; the departed session sends nothing afterwards.  A departure changes neither the
+// highest id learnt nor who holds it: what the remaining session may do is unchanged.
+func vfC04MixedD(k int, withDisconnect bool) {
 	s := &Server{cs: map[string]*clientState{}, masterRIB: rib.New(DefaultNetworkInstanceName)}
 	for _, c := range []string{"A", "B"} {
 		s.cs[c] = &clientState{params: &clientParams{ExpectElecID: true, Persist: true}, setParams: true}
@@ -378,10 +387,26 @@ func vfC04Mixed(k int) {
 	lastSet := map[string]bool{}
 	lastH, lastL := map[string]uint64{}, map[string]uint64{}
 	ops := 0
+	gone := map[string]bool{}
+	leaveAt, leaver := -1, "A"
+	if withDisconnect {
+		leaveAt = vfInt("leave.before-step", 0, k-1)
+		if vfBool("leave.is-B") {
+			leaver = "B"
+		}
+	}
 	for i := 0; i < k; i++ {
+		if i == leaveAt {
+			s.deleteClient(leaver)
+			gone[leaver] = true
+			vfReach("departure")
+		}
 		x := "A"
 		if vfBool("step.by-B") {
 			x = "B"
+		}
+		if gone[x] {
+			continue
 		}
 		h, l := vfU64("step.hi"), vfU64("step.lo")
 		if vfBool("step.is-op") {
@@ -412,6 +437,56 @@ func vfC04Mixed(k int) {
 }
 
 func VfC04_mixed4() { vfC04Mixed(4) }
+func VfC04_mixedLeave3() { vfC04MixedD(3, true) }
+func VfC04_mixedLeave4() { vfC04MixedD(4, true) }
+
+// VfC04_concurrent: two sessions announce different arbitrary ids CONCURRENTLY (every schedule with <= 2
+// pre-emptions), then each sends one operation stamped with its own id: the operation of the session with
+// the lower id never reaches the RIB, the one of the session with the higher id does.
+func VfC04_concurrent() {
+	aH, aL := vfU64("a.hi"), vfU64("a.lo")
+	bH, bL := vfU64("b.hi"), vfU64("b.lo")
+	vfAssume(vfOr(aH != 0, aL != 0))
+	vfAssume(vfOr(bH != 0, bL != 0))
+	vfAssume(!eq128(aH, aL, bH, bL))
+	rounds := 1
+	if !vfEngine() {
+		rounds = 200000
+	}
+	for r := 0; r < rounds; r++ {
+		s := &Server{cs: map[string]*clientState{}, masterRIB: rib.New(DefaultNetworkInstanceName)}
+		for _, c := range []string{"A", "B"} {
+			s.cs[c] = &clientState{params: &clientParams{ExpectElecID: true, Persist: true}, setParams: true}
+		}
+		var wg sync.WaitGroup
+		start := make(chan struct{})
+		wg.Add(2)
+		vfSched(2)
+		go func() {
+			defer wg.Done()
+			<-start
+			s.runElection("A", &spb.Uint128{High: aH, Low: aL})
+		}()
+		go func() {
+			defer wg.Done()
+			<-start
+			s.runElection("B", &spb.Uint128{High: bH, Low: bL})
+		}()
+		close(start)
+		wg.Wait()
+		vfSched(0)
+		resCh, errCh := make(chan *spb.ModifyResponse, 8), make(chan error, 8)
+		s.doModify("A", []*spb.AFTOperation{vfNHOp(1, DefaultNetworkInstanceName, 100, &spb.Uint128{High: aH, Low: aL})}, resCh, errCh)
+		s.doModify("B", []*spb.AFTOperation{vfNHOp(2, DefaultNetworkInstanceName, 200, &spb.Uint128{High: bH, Low: bL})}, resCh, errCh)
+		aWins := ge128(aH, aL, bH, bL)
+		ok := vfAnd(vfNHInstalled(s.masterRIB, DefaultNetworkInstanceName, 100) == aWins, vfNHInstalled(s.masterRIB, DefaultNetworkInstanceName, 200) == !aWins)
+		vfAssert(ok, "C04:after-concurrent-announcements-only-the-higher-id-session-changes-the-rib")
+		if !ok && !vfEngine() {
+			break
+		}
+	}
+	vfReach("end")
+}
 func VfC04_mixed5() { vfC04Mixed(5) }
 func VfC04_history2() { vfC04History(2) }
 func VfC04_history3() { vfC04History(3) }
